@@ -75,6 +75,7 @@ type Req struct {
 	NoExec    bool   `json:",omitempty"`
 	Shared    bool   `json:",omitempty"` // initialise with option values shared by all instances of the package
 	PrintRaw  bool   `json:",omitempty"`
+	TreeFirst bool   `json:",omitempty"`
 	Print     bool   `json:",omitempty"` // conc mode: capture the process's standard output, report its byte histogram
 	// conc mode
 	Conc []Req `json:",omitempty"`
